@@ -2299,6 +2299,20 @@ func (in *Interp) callBuiltin(fr *Frame, b *ssa.Builtin, args []Value, c *ssa.Ca
 			res = st.Ite(lt, y, x)
 		}
 		return res
+	case "Add": // unsafe.Add(ptr, len): pointer arithmetic inside one array
+		p, ok := args[0].(Ptr)
+		if !ok || p.obj == nil || len(p.path) == 0 {
+			in.unsupported("unsafe.Add on a pointer that is not an array element")
+		}
+		k := in.concreteInt(args[1], "unsafe.Add offset")
+		np := make([]int, len(p.path))
+		copy(np, p.path)
+		np[len(np)-1] += k
+		parent := in.getPath(p.obj.val, np[:len(np)-1])
+		if a, ok := parent.(*Agg); !ok || np[len(np)-1] < 0 || np[len(np)-1] >= len(a.e) {
+			in.unsupported("unsafe.Add leaves the array (native code would read adjacent memory)")
+		}
+		return Ptr{obj: p.obj, path: np}
 	case "ssa:wrapnilchk":
 		p, ok := args[0].(Ptr)
 		if ok && p.obj == nil {
